@@ -561,6 +561,7 @@ C12_CLAUSES = {1: "accepted transfer did not emit exactly one packet with the es
                9: "success acknowledgement without the balance reduced by exactly the amount", 10: "success acknowledgement without the receiver being paid the amount",
                11: "a success acknowledgement of our packet changed balances", 12: "failed send not taken off the channel balance by exactly its amount",
                13: "refund of a failed send not paid to the original sender", 14: "tokens sent outside the protocol changed channel balances",
+               15: "migrated from an old layout, yet a channel's outstanding balance differs from what is actually escrowed",
                20: "accounting identity outstanding = sent - failed - redeemed broken"}
 C18_CLAUSES = {1: "an allowed token was removed or its gas limit lowered", 2: "allow list / governance / defaults changed other than by the governance address's own call",
                3: "cw20 transfer accepted although the token is not allowed and no default gas limit is set",
